@@ -3,7 +3,7 @@
 # Static analysis of /repo's CURRENT working tree (re-loaded and re-type-checked on every run).
 cd /verif || exit 2
 . ./env.sh
-if [ ! -x bin/smtpverif ] || [ -n "$(find cmd -newer bin/smtpverif -name '*.go' 2>/dev/null | head -1)" ]; then
+if [ ! -x bin/smtpverif ] || [ -n "$(find cmd/smtpverif -newer bin/smtpverif -name '*.go' 2>/dev/null | head -1)" ]; then
   go build -o bin/smtpverif ./cmd/smtpverif || { echo "ERROR: cannot build checker"; exit 2; }
 fi
 exec bin/smtpverif -property "$1" -tier "${2:-quick}"
